@@ -20,9 +20,12 @@ PROPS = {
     "C04": {"theorems": [], "modes": [{"name": "c04", "quick_n": 250, "thorough_n": 2000, "shard": 25}]},
     "C07": {"theorems": [], "modes": [{"name": "c07", "quick_n": 250, "thorough_n": 2500, "shard": 250}]},
     "C08": {"theorems": [], "modes": [{"name": "c08", "quick_n": 800, "thorough_n": 6000, "shard": 120}]},
-    "C10": {"theorems": [], "modes": [{"name": "c10", "quick_n": 400, "thorough_n": 3000, "shard": 40}]},
+    "C10": {"theorems": [], "modes": [{"name": "c10", "quick_n": 400, "thorough_n": 3000, "shard": 40}, {"name": "c10s", "quick_n": 400, "thorough_n": 3000, "shard": 40}]},
     "C11": {"theorems": [], "modes": [{"name": "c11", "quick_n": 400, "thorough_n": 3000, "shard": 40}]},
     "C12": {"theorems": [], "modes": [{"name": "c12", "quick_n": 400, "thorough_n": 3000, "shard": 60}]},
     "C13": {"theorems": [], "modes": [{"name": "c13", "quick_n": 3, "thorough_n": 12, "shard": 120}]},
     "C15": {"theorems": [], "modes": [{"name": "c15", "quick_n": 150, "thorough_n": 1500, "shard": 60}]},
+    "C05": {"theorems": [], "modes": [{"name": "c05", "quick_n": 400, "thorough_n": 3000, "shard": 30}]},
+    "C09": {"theorems": [], "modes": [{"name": "c09", "quick_n": 200, "thorough_n": 1500, "shard": 20}]},
+    "C18": {"theorems": [], "modes": [{"name": "c18", "quick_n": 300, "thorough_n": 2500, "shard": 30}]},
 }
